@@ -38,7 +38,13 @@ def streams(ctx):
             ln = rnd.choice([0, 1, 2, 124, 125, 126, 127, 200, rnd.randint(0, 300)])
             if rnd.random() < 0.03:
                 ln = rnd.choice([65535, 65536, 65537])
-            frames.append(F(op, rx.payload(rnd, ln, "bin"), fin=rnd.randint(0, 1), rsv=rnd.choice([0, 0, 0, rnd.randrange(8)])))
+            data = rx.payload(rnd, ln, "bin")
+            if op == 8 and rnd.random() < 0.6:
+                # a close frame a server may send: legal status code + a UTF-8 reason drawn from every lead-byte class
+                data = rnd.choice([1000, 1001, 1011, 3000, 4999]).to_bytes(2, "big") + rx.payload(rnd, min(ln, 123), "utf8")
+            elif op == 1 and rnd.random() < 0.5:
+                data = rx.payload(rnd, ln, "utf8")
+            frames.append(F(op, data, fin=rnd.randint(0, 1), rsv=rnd.choice([0, 0, 0, rnd.randrange(8)])))
         rx.randomize_encoding(rnd, frames, 0.4, 0.3)
         out.append(frames)
     return out
